@@ -588,13 +588,21 @@ func (x *runner) attrNamesOracle(in input, pre string, st xml.StartElement, root
 			mar[an{string(a.Space), string(a.Local)}] = string(a.Value)
 		}
 	}
-	for n, v := range mar {
+	for _, a := range rootM.Attrs {
+		n, v := an{string(a.Space), string(a.Local)}, string(a.Value)
+		if _, counted := mar[n]; !counted {
+			continue
+		}
 		if tv, ok := tok[n]; !ok || tv != v {
 			x.res.Fail(pre+"/two-paths/attribute-names-differ", fmt.Sprintf("xml.Marshal writes attribute {%s}%s=%q, StartElement writes %v", n.space, n.local, v, st.Attr), in)
 			return
 		}
 	}
-	for n, v := range tok {
+	for _, a := range st.Attr {
+		n, v := an{a.Name.Space, a.Name.Local}, a.Value
+		if v == "" {
+			continue
+		}
 		if mv, ok := mar[n]; !ok || mv != v {
 			x.res.Fail(pre+"/two-paths/attribute-names-differ", fmt.Sprintf("StartElement writes attribute {%s}%s=%q, xml.Marshal writes %v", n.space, n.local, v, rootM.Attrs), in)
 			return
